@@ -31,7 +31,7 @@ PROPS['C10'] = {
                    'distance == published red-mean metric (x512) without overflow, and the pass-through/exact-index clauses of all eight conversion functions.',
 }
 
-ALG = ['alg_effects_membership', 'alg_effects_set_laws', 'alg_effects_iter', 'alg_effects_debug',
+ALG = ['alg_effects_membership', 'alg_effects_set_laws', 'alg_effects_iter', 'alg_effects_dbg_samples', 'alg_effects_dbg_singles_lo', 'alg_effects_dbg_singles_hi',
        'alg_style_builders', 'alg_style_convenience', 'alg_color_tables']
 PROPS['C13'] = {
     'level': 'proof',
@@ -40,9 +40,11 @@ PROPS['C13'] = {
                   'anstyle::Style::{new,fg_color,bg_color,underline_color,effects,bold,dimmed,italic,underline,blink,invert,hidden,strikethrough,get_*,is_plain}',
                   'BitOr/BitOrAssign/Sub/SubAssign<Effects>, PartialEq<Effects>, From<Effects> for Style',
                   'AnsiColor::{bright,is_bright,on,on_default}', 'Ansi256Color::{into_ansi,from_ansi,index}', 'Color::{on,on_default}, From impls', 'RgbColor::{r,g,b}'],
-    'quick': {'kani': [{'crate': 'anstyle', 'harnesses': ALG, 'timeout': 900}]},
-    'thorough': {'kani': [{'crate': 'anstyle', 'harnesses': ALG, 'timeout': 1800}]},
-    'bounded': {'alg_effects_debug': 'Debug text checked concretely for five representative sets (empty, BOLD, STRIKETHROUGH, UNDERLINE|BLINK, DIMMED|ITALIC|HIDDEN); member order for all 4096 sets from alg_effects_iter (complete)'},
+    'quick': {'kani': [{'crate': 'anstyle', 'harnesses': ALG, 'timeout': 900, 'fmt_direct': True}]},
+    'thorough': {'kani': [{'crate': 'anstyle', 'harnesses': ALG, 'timeout': 1800, 'fmt_direct': True}]},
+    'bounded': {'alg_effects_dbg_samples': 'Debug text checked concretely for five representative sets (empty, BOLD, STRIKETHROUGH, UNDERLINE|BLINK, DIMMED|ITALIC|HIDDEN); member order for all 4096 sets from alg_effects_iter (complete)',
+                'alg_effects_dbg_singles_lo': 'Debug text of the one-member sets DIMMED..CURLY_UNDERLINE (concrete)',
+                'alg_effects_dbg_singles_hi': 'Debug text of the one-member sets DOTTED_UNDERLINE..HIDDEN (concrete)'},
     'assumptions': ['core::fmt machinery (format_args!, Formatter::write_str/pad) as compiled by Kani'],
     'explanation': 'Loop-free or table-length-bounded (12) harnesses over full symbolic domains: complete proofs, except the Debug text which is bounded in set size.',
 }
@@ -68,40 +70,42 @@ PROPS['C16'] = {
 PROPS['C16']['thorough'] = PROPS['C16']['quick']
 
 NOT_APPLICABLE = {
+    'C17': 'not decided by this technique here: write_colored frames the data through std formatted writes; every harness shape tried on the verbatim-extracted function (symbolic and concrete colour pairs, std `write!`, a local `write!` with the documented write_fmt meaning, a directly constructed Formatter, byte-wise and per-call recording writers, with and without an unwinding bound, --restrict-vtable) exceeded 15-30 min and 4-9 GB in CBMC; only the uncoloured case finishes, which does not decide the statement (DESIGN.md section 8, items 20-21 and 23)',
     'C14': 'whole-document XML/string property through format!, html_escape, unicode-width and BTreeMap: no contract language available here can state well-formedness over String; Verus has no str/format reasoning and Kani does not terminate on this code (DESIGN.md section 6)',
     'C15': 'segmentation is the cansi crate, escaping/rendering the roff crate (opaque Roff type); the repository-own logic is five finite leaf functions that do not decide the statement (DESIGN.md section 6)',
 }
 
-REND_CORE = ['render_write_code_all', 'render_buffer_ansi', 'render_buffer_ansi256', 'render_buffer_rgb_fg', 'render_buffer_rgb_bg',
+REND_CORE = ['render_write_code_all', 'render_buffer_ansi16', 'render_buffer_ansi256', 'render_buffer_rgb_fg', 'render_buffer_rgb_bg',
              'render_buffer_rgb_underline', 'render_color_write_paths', 'render_effect_escapes', 'render_effects_concat',
              'render_style_concat', 'render_reset_io']
-REND_FMT = ['render_display_eq_s0', 'render_display_eq_s1', 'render_display_eq_s2', 'render_display_eq_s3', 'render_display_eq_s4',
-            'render_flags_width_right', 'render_flags_fill_center', 'render_flags_precision', 'render_flags_alt_width',
-            'render_flags_alt_precision', 'render_flags_alt_fill_plain', 'render_reset_value']
-REND_QUICK = REND_CORE + ['render_display_eq_s2', 'render_flags_width_right', 'render_flags_alt_width', 'render_reset_value']
+REND_FMT = ['render_display_matches_io_s0', 'render_display_matches_io_s1', 'render_display_matches_io_s2', 'render_display_matches_io_s3', 'render_display_matches_io_s4', 'render_reset_value']
+REND_QUICK = REND_CORE + REND_FMT
 REND_ALL = REND_CORE + REND_FMT
 PROPS['C05'] = {
     'level': 'proof',
     'functions': ['anstyle::color::DisplayBuffer::{write_str,write_code,as_str,write_to}', 'AnsiColor/Ansi256Color/RgbColor::{as_fg_buffer,as_bg_buffer,as_underline_buffer,render_fg,render_bg}',
                   'Color::{render_fg,render_bg,render_underline,write_fg_to,write_bg_to,write_underline_to}', 'Effects::{render,write_to}', 'EffectsDisplay::fmt',
                   'Style::{fmt_to,write_to,render,render_reset,write_reset_to}', 'Display for Style/StyleDisplay/Reset/DisplayBuffer/NullFormatter'],
-    'quick': {'kani': [{'crate': 'anstyle', 'harnesses': REND_QUICK, 'timeout': 1500, 'mem_gb': 8, 'jobs': 8, 'flags': ['-Z', 'stubbing']}]},
-    'thorough': {'kani': [{'crate': 'anstyle', 'harnesses': REND_ALL, 'timeout': 3000, 'mem_gb': 8, 'jobs': 8, 'flags': ['-Z', 'stubbing']}]},
-    'assumptions': ['core::fmt machinery (format_args!, Formatter::write_str/pad, fmt::write) as compiled by Kani',
+    'quick': {'kani': [{'crate': 'anstyle', 'harnesses': REND_QUICK, 'timeout': 1500, 'mem_gb': 8, 'jobs': 8, 'flags': ['-Z', 'stubbing'], 'fmt_direct': True}]},
+    'thorough': {'kani': [{'crate': 'anstyle', 'harnesses': REND_ALL, 'timeout': 3000, 'mem_gb': 8, 'jobs': 8, 'flags': ['-Z', 'stubbing'], 'fmt_direct': True}]},
+    'assumptions': ['format_args!/fmt::Arguments dispatch to the Display impl with the options of the format string (std; the harness constructs the Formatter directly, unstable `formatting_options`, because CBMC does not finish on the function pointers of fmt::Arguments)',
                     'S4 (spec/sgr.rs) is the reference SGR interpreter; underline kinds are independent bits (the only reading under which all 4096 effect sets can round-trip)'],
-    'explanation': 'Compositional: every colour buffer and every effect escape interprets (S4) to exactly its colour/effect (complete over all values); Style::write_to is the in-order concatenation of those parts for every style (symbolic, complete); Display paths and format flags are compared byte-for-byte on five concrete styles (bounded).',
-    'bounded': {h: 'core::fmt path on a concrete sample style (symbolic styles through core::fmt do not finish in CBMC)' for h in REND_FMT},
+    'bounded': {h: 'one concrete sample style; format flags (width, fill, alignment, precision, zero padding, alternate) fully symbolic' for h in REND_FMT if h.startswith('render_display')},
+    'explanation': 'Compositional: every colour buffer and every effect escape interprets (S4) to exactly its colour/effect (complete over all values); Style::write_to is the in-order concatenation of those parts for every style (symbolic, complete); the Display paths are compared piece-by-piece with the io::Write path on five sample styles for every combination of width, fill, alignment, precision, zero-padding and alternate flag (symbolic FormattingOptions on a directly constructed Formatter; bounded in the style only).',
 }
 
 STRIP_LEAVES = ['strip_leaf_predicates', 'strip_utf8_add_eq_s5', 'strip_s5_bounded_depth']
-VT_TABLE = {'crate': 'anstyle-parse', 'harnesses': ['vt_table_state_change_eq_spec', 'vt_table_unpack_total'], 'timeout': 600, 'flags': ['-Z', 'valid-value-checks']}
+# `-Z valid-value-checks` (invalid enum values from transmute) only for the unpack harness: Kani's
+# instrumentation pass panics (internal compiler error) when the MaybeUninit code of osc_dispatch is in scope
+VT_UNPACK = {'crate': 'anstyle-parse', 'harnesses': ['vt_table_unpack_total'], 'timeout': 600, 'flags': ['-Z', 'valid-value-checks'], 'tag': 'vv', 'only_modules': 'vt'}
+VT_TABLE = {'crate': 'anstyle-parse', 'harnesses': ['vt_table_state_change_eq_spec', 'vt_table_try_from'], 'timeout': 600}
 PROPS['C01'] = {
     'level': 'proof',
     'functions': ['anstream::adapter::strip::{next_bytes,next_str,is_printable_bytes,is_utf8_continuation}', 'anstyle_parse::state::{state_change,state_change_,unpack}',
                   'anstream::adapter::strip::Utf8Parser::add'],
-    'quick': {'verus': ['strip_scan'], 'kani': [VT_TABLE,
+    'quick': {'verus': ['strip_scan'], 'kani': [VT_TABLE, VT_UNPACK,
         {'crate': 'anstream', 'harnesses': STRIP_LEAVES + ['strip_next_bytes_onecall_n3', 'strip_next_str_onecall_n3'], 'timeout': 900}]},
-    'thorough': {'verus': ['strip_scan'], 'kani': [VT_TABLE,
+    'thorough': {'verus': ['strip_scan'], 'kani': [VT_TABLE, VT_UNPACK,
         {'crate': 'anstream', 'harnesses': STRIP_LEAVES + ['strip_next_bytes_onecall_n5', 'strip_next_str_onecall_n4'], 'timeout': 3000}]},
     'bounded': {'strip_next_bytes_onecall_n3': 'twin of the Verus proof on the un-desugared function: one call, inputs <= 3 bytes, any carried state',
                 'strip_next_str_onecall_n3': 'twin of the Verus proof: one call, valid UTF-8 inputs <= 3 bytes; also discharges valid-UTF-8-piece (C04) for that bound',
@@ -111,16 +115,14 @@ PROPS['C01'] = {
     'explanation': 'Verus proves for inputs of any length and any carried state that one call of next_bytes/next_str returns exactly the next maximal run of model-visible bytes as a sub-slice, leaves the rest, and carries the model state; leaves (table, predicates, UTF-8 accumulator) are discharged completely by Kani.',
 }
 
-VT_TABLE['harnesses'] = ['vt_table_state_change_eq_spec', 'vt_table_unpack_total', 'vt_table_try_from']
-PARSE_LEAVES = {'crate': 'anstyle-parse', 'harnesses': ['vt_table_state_change_eq_spec', 'vt_table_unpack_total', 'vt_table_try_from', 'parse_osc_dispatch_slices'],
-                'timeout': 900, 'flags': ['-Z', 'valid-value-checks']}
+PARSE_LEAVES = {'crate': 'anstyle-parse', 'harnesses': ['vt_table_state_change_eq_spec', 'vt_table_try_from', 'parse_osc_dispatch_slices'], 'timeout': 900}
 PROPS['C02'] = {
     'level': 'proof',
     'functions': ['anstyle_parse::Parser::{advance,process_utf8,perform_state_change,perform_action,osc_dispatch,params,intermediates}',
                   'anstyle_parse::Params::{len,is_empty,is_full,clear,push,extend}', 'anstyle_parse::ParamsIter::{new,next}',
                   'anstyle_parse::state::{state_change,state_change_,unpack}', 'TryFrom<u8> for State/Action'],
-    'quick': {'verus': ['parse_core'], 'kani': [PARSE_LEAVES]},
-    'thorough': {'verus': ['parse_core'], 'kani': [PARSE_LEAVES]},
+    'quick': {'verus': ['parse_core'], 'kani': [PARSE_LEAVES, VT_UNPACK]},
+    'thorough': {'verus': ['parse_core'], 'kani': [PARSE_LEAVES, VT_UNPACK]},
     'bounded': {'parse_osc_dispatch_slices': 'unsafe leaf osc_dispatch: all parameter counts 0..=16 and all bounds tables, payload <= 6 bytes'},
     'assumptions': ['Perform is caller code: each callback is specified to append exactly one event to a ghost log (rule E6)',
                     'CharAccumulator is specified as a deterministic step function (rule E6); for Utf8Parser see C01 strip_utf8_add_eq_s5 / utf8parse crate',
@@ -143,12 +145,12 @@ PROPS['C04'] = {
     'level': 'proof',
     'functions': ['every function of units parse_core, strip_scan, lossy (Verus checks overflow, bounds, unwrap on all of them)', 'anstyle_parse::state::unpack (transmute)',
                   'anstyle_parse::Parser::osc_dispatch (MaybeUninit)', 'anstream::adapter::strip::from_utf8_unchecked via next_str', 'anstyle::color::DisplayBuffer'],
-    'quick': {'verus': ['parse_core', 'strip_scan', 'lossy'], 'kani': [PARSE_LEAVES,
+    'quick': {'verus': ['parse_core', 'strip_scan', 'lossy'], 'kani': [PARSE_LEAVES, VT_UNPACK,
         {'crate': 'anstream', 'harnesses': ['strip_next_str_onecall_n3'], 'timeout': 900},
-        {'crate': 'anstyle', 'harnesses': ['render_write_code_all', 'render_buffer_rgb_fg'], 'timeout': 900}]},
-    'thorough': {'verus': ['parse_core', 'strip_scan', 'lossy'], 'kani': [PARSE_LEAVES,
+        {'crate': 'anstyle', 'harnesses': ['render_write_code_all', 'render_buffer_rgb_fg'], 'timeout': 900, 'fmt_direct': True}]},
+    'thorough': {'verus': ['parse_core', 'strip_scan', 'lossy'], 'kani': [PARSE_LEAVES, VT_UNPACK,
         {'crate': 'anstream', 'harnesses': ['strip_next_str_onecall_n4', 'strip_next_bytes_onecall_n5'], 'timeout': 3000},
-        {'crate': 'anstyle', 'harnesses': ['render_write_code_all', 'render_buffer_ansi', 'render_buffer_ansi256', 'render_buffer_rgb_fg', 'render_buffer_rgb_bg', 'render_buffer_rgb_underline'], 'timeout': 1800}]},
+        {'crate': 'anstyle', 'harnesses': ['render_write_code_all', 'render_buffer_ansi16', 'render_buffer_ansi256', 'render_buffer_rgb_fg', 'render_buffer_rgb_bg', 'render_buffer_rgb_underline'], 'timeout': 1800, 'fmt_direct': True}]},
     'bounded': {'strip_next_str_onecall_n3': 'valid-UTF-8 piece obligation of from_utf8_unchecked: all valid UTF-8 inputs <= 3 bytes (4 in thorough)',
                 'parse_osc_dispatch_slices': 'payload <= 6 bytes'},
     'assumptions': ['NOT covered: anstyle-svg and anstyle-roff converters, anstyle_ls::parse tokeniser, anstyle_git::parse (string/alloc code outside both tools, see C11/C12/C14/C15)',
@@ -156,20 +158,21 @@ PROPS['C04'] = {
     'explanation': 'Safety side-conditions of the verified units: Verus discharges no-overflow / in-bounds / unwrap obligations for every extracted function for all inputs; Kani checks the unsafe leaves (transmute for all 256 values, MaybeUninit slices, from_utf8_unchecked) and the 19-byte display buffer.',
 }
 C06_QUICK = ['stream_write_plumbing_interrupted', 'stream_write_plumbing_wouldblock', 'stream_write_plumbing_other', 'stream_write_all_plumbing', 'stream_methods_forward']
+C06_FMT = {'crate': 'anstream', 'harnesses': ['stream_write_fmt_plumbing', 'stream_write_fmt_formatter_error'], 'timeout': 1500, 'flags': ['-Z', 'stubbing', '-Z', 'restrict-vtable'], 'mem_gb': 12, 'io_error_unwind': 2, 'tag': 'rv'}
 PROPS['C06'] = {
     'level': 'proof',
     'functions': ['anstream::strip::{write,write_all,write_fmt,offset_to}', 'impl Write for StripStream (write, write_vectored, flush, write_all, write_fmt)', 'anstream::fmt::Adapter (thorough)'],
     'quick': {'verus': ['strip_scan', 'strip_fold'], 'kani': [
-        {'crate': 'anstream', 'harnesses': C06_QUICK, 'timeout': 1500, 'flags': ['-Z', 'stubbing'], 'mem_gb': 12}]},
+        {'crate': 'anstream', 'harnesses': C06_QUICK, 'timeout': 1500, 'flags': ['-Z', 'stubbing'], 'mem_gb': 12}, C06_FMT]},
     'thorough': {'verus': ['strip_scan', 'strip_fold'], 'kani': [
-        {'crate': 'anstream', 'harnesses': C06_QUICK, 'timeout': 3000, 'flags': ['-Z', 'stubbing'], 'mem_gb': 12}]},
+        {'crate': 'anstream', 'harnesses': C06_QUICK, 'timeout': 3000, 'flags': ['-Z', 'stubbing'], 'mem_gb': 12}, C06_FMT]},
     'assumptions': ['modular: next_bytes is replaced by a recording stand-in returning an arbitrary answer of the shape its verified contract guarantees (verus:strip_scan::next_bytes); buffers up to 4 bytes (write never inspects byte values)',
                     'fmt::Adapter / write_fmt: CBMC does not finish on core::fmt::write (measured > 50 min); its error-saving logic is covered only by reading: listed as unverified',
                     'the inner writer honours the Write contract (returns n <= buf.len())'],
     'explanation': 'Kani verifies write/write_all against the scanner contract for every carried state, every scanner answer and every inner-writer outcome (accept any prefix, fail with Interrupted/WouldBlock/Other): exactly one inner write per call, the reported count ends at the last accepted visible byte, the state is replayed over exactly the consumed prefix from the entry state, errors surface with their kind and leave state and delivery untouched. Verus (strip_scan + strip_fold) supplies what the routed pieces and states mean.',
 }
 
-SGR_SHAPES_Q = ['sgr_shape_1', 'sgr_shape_2_semi', 'sgr_shape_2_colon', 'sgr_shape_3_semi', 'sgr_shape_3_colon', 'sgr_shape_3_colon_semi',
+SGR_SHAPES_Q = ['sgr_shape_one', 'sgr_shape_2_semi', 'sgr_shape_2_colon', 'sgr_shape_3_semis', 'sgr_shape_3_colons', 'sgr_shape_3_colon_semi',
                 'sgr_shape_4_semi', 'sgr_shape_5_semi', 'sgr_shape_10_semi', 'sgr_print_execute', 'sgr_to_ansi_color']
 SGR_SHAPES_T = SGR_SHAPES_Q + ['sgr_shape_3_semi_colon', 'sgr_shape_4_colon3_semi', 'sgr_shape_5_colon', 'sgr_shape_6_semi']
 PROPS['C07'] = {
@@ -192,24 +195,24 @@ PROPS['C09'] = {
     'functions': ['anstream::auto::choice', 'AutoStream::{choice,auto}', 'anstyle_query::{clicolor,clicolor_force,no_color,term_supports_color,term_supports_ansi_color,truecolor,is_ci,non_empty}',
                   'colorchoice_clap::Color::as_choice', 'colorchoice::AtomicChoice::{from_choice,to_choice,get,set,new}', 'ColorChoice::{global,write_global,default}'],
     'quick': {'kani': [AUTO_C09,
-        {'crate': 'anstyle-query', 'harnesses': ['query_no_color', 'query_clicolor_force', 'query_clicolor', 'query_term', 'query_truecolor', 'query_ci'], 'timeout': 900, 'flags': ['-Z', 'stubbing']},
+        {'crate': 'anstyle-query', 'harnesses': ['query_no_color', 'query_clicolor_force', 'query_clicolor_plain', 'query_term', 'query_truecolor', 'query_ci'], 'timeout': 900, 'flags': ['-Z', 'stubbing']},
         {'crate': 'colorchoice', 'harnesses': ['choice_encoding_total'], 'timeout': 600},
         {'crate': 'colorchoice-clap', 'harnesses': ['clap_flag_mapping'], 'timeout': 900}]},
     'assumptions': ['modular: choice() is verified against free values for its seven inputs (global choice, five probes, is_terminal) — complete over all 384 combinations',
                     'each probe is verified against a replaced std::env::var_os over nine candidate values (unset, "", "0", "1", "dumb", "xterm-256color", "truecolor", "24bit", "true") — bounded in content',
                     'the process environment and isatty (is_terminal_polyfill) are the operating system boundary: assumed'],
     'explanation': 'The precedence chain of the statement is the postcondition of choice() with every callee replaced by its contract (Kani stubs); the probes and the flag/atomic encodings are verified separately.',
-    'bounded': {h: 'variable content drawn from nine candidate strings' for h in ['query_no_color', 'query_clicolor_force', 'query_clicolor', 'query_term', 'query_truecolor', 'query_ci']},
+    'bounded': {h: 'variable content drawn from nine candidate strings' for h in ['query_no_color', 'query_clicolor_force', 'query_clicolor_plain', 'query_term', 'query_truecolor', 'query_ci']},
 }
 PROPS['C09']['thorough'] = PROPS['C09']['quick']
 PROPS['C08'] = {
     'level': 'model_checking',
     'functions': ['AutoStream::{new,auto,always_ansi,always_ansi_,always,never,into_inner,current_choice,choice}', 'impl Write for AutoStream (write, write_vectored, flush, write_all)'],
     'quick': {'kani': [
-        {'crate': 'anstream', 'harnesses': ['auto_new_dispatch', 'auto_passthrough_forwards', 'auto_never_is_strip_stream'], 'timeout': 1500, 'flags': ['-Z', 'stubbing'], 'mem_gb': 12}]},
+        {'crate': 'anstream', 'harnesses': ['auto_new_never', 'auto_new_ansi_always', 'auto_new_always', 'auto_pass_one_write', 'auto_pass_all_write', 'auto_pass_vectored_write', 'auto_pass_flushes', 'auto_routed_one_write', 'auto_routed_all_write', 'auto_routed_vectored_write', 'auto_routed_flushes'], 'timeout': 1500, 'flags': ['-Z', 'stubbing', '-Z', 'restrict-vtable'], 'mem_gb': 12}]},
     'rule': 'one case = one harness over all colour choices / all four Write methods / symbolic buffers of <= 3 bytes; non-trivial = verified',
-    'bounded': {'auto_passthrough_forwards': 'buffers <= 3 symbolic bytes, one call per method (every call is stateless in pass-through mode)',
-                'auto_never_is_strip_stream': 'one call per method on a 2-byte buffer; that the call is routed through StripStream is what is checked, StripStream itself is C06'},
+    'bounded': {**{h: 'one call of one method on a symbolic 2-byte buffer (every call is stateless in pass-through mode)' for h in ['auto_pass_one_write', 'auto_pass_all_write', 'auto_pass_vectored_write', 'auto_pass_flushes']},
+                **{h: 'one call of one method on a 2-byte buffer; that the call is routed through StripStream with the right buffer is what is checked, StripStream itself is C06' for h in ['auto_routed_one_write', 'auto_routed_all_write', 'auto_routed_vectored_write', 'auto_routed_flushes']}},
     'assumptions': ['write_fmt (both arms) and to_adapted_string are not covered: CBMC does not finish on core::fmt::write',
                     'the Never arm is verified to route through StripStream (C06 verifies that stream); the Windows console arm is outside the claim',
                     'inner writers other than the in-crate mock (Vec<u8>, Box<dyn Write>, File) are assumed to behave alike (the code is generic in S)'],
@@ -245,23 +248,26 @@ PROPS['C11'] = {
 }
 PROPS['C11']['thorough'] = PROPS['C11']['quick']
 
+# C17 is not claimed (see NOT_APPLICABLE); its harness sources stay under kani/anstyle-wincon for reference
+C17_UNCLAIMED = '''
 PROPS['C17'] = {
     'level': 'model_checking',
     'functions': ['anstyle_wincon::ansi::write_colored (cut verbatim; std `write!` bound to its documented meaning, rule E10)'],
-    'quick': {'kani': [{'crate': 'anstyle-wincon', 'harnesses': ['wincon_ansi_fg_only', 'wincon_ansi_bg_only', 'wincon_ansi_both', 'wincon_ansi_none', 'wincon_ansi_fail_first', 'wincon_ansi_fail_data', 'wincon_ansi_fail_reset'], 'timeout': 2400, 'mem_gb': 7, 'jobs': 8}]},
+    'quick': {'kani': [{'crate': 'anstyle-wincon', 'harnesses': ['wincon_ansi_fg_only', 'wincon_ansi_bg_only', 'wincon_ansi_both', 'wincon_ansi_none', 'wincon_ansi_fail_first', 'wincon_ansi_fail_data', 'wincon_ansi_fail_reset'], 'timeout': 2400, 'mem_gb': 7, 'jobs': 8, 'fmt_direct': True, 'flags': ['-Z', 'restrict-vtable']}]},
     'bounded': {h: 'one concrete colour pair (fg only / bg only / both / none / via the dyn Write impl); data 1-2 symbolic bytes, failure at any inner write, any prefix of the data accepted' for h in ['wincon_ansi_fg_only', 'wincon_ansi_bg_only', 'wincon_ansi_both', 'wincon_ansi_none', 'wincon_ansi_fail_first', 'wincon_ansi_fail_data', 'wincon_ansi_fail_reset']},
     'rule': 'one case = one colour-pair shape x all data bytes x failure points x accepted prefixes; non-trivial = verified with short-write and error covers reached',
     'assumptions': ['std `write!(stream, ..)` on an io::Write renders the arguments, write_all()s the bytes and returns the I/O error (documented behaviour of io::Write::write_fmt; CBMC does not finish on the std implementation itself)', 'trait impls for Vec<u8>, File, dyn Write, stdio and their locks forward to the same function (one-line forwards, not harnessed)', 'S4 (spec/sgr.rs) as SGR reference'],
     'explanation': 'Kani checks write_colored against a scripted writer: codes-before-data interpret (S4) to exactly the requested colours, data forwarded unchanged, reset after, returned count is what the writer accepted for the data, inner errors surface.',
 }
 PROPS['C17']['thorough'] = PROPS['C17']['quick']
+'''
 
 PROPS['C20'] = {
     'level': 'proof',
     'functions': ['anstyle_parse::Parser::{advance,process_utf8,perform_state_change,perform_action} in the feature sets {utf8} (default), {core,utf8}, {core}, {}',
                   'spec lemmas lemma_cap_irrelevant_step, lemma_full_buffer_drops, lemma_seven_bit_no_utf8'],
-    'quick': {'verus': ['parse_core', 'parse_core+core,utf8'], 'kani': [PARSE_LEAVES]},
-    'thorough': {'verus': ['parse_core', 'parse_core+core,utf8', 'parse_core+core', 'parse_core+'], 'kani': [PARSE_LEAVES]},
+    'quick': {'verus': ['parse_core', 'parse_core+core,utf8'], 'kani': [PARSE_LEAVES, VT_UNPACK]},
+    'thorough': {'verus': ['parse_core', 'parse_core+core,utf8', 'parse_core+core', 'parse_core+'], 'kani': [PARSE_LEAVES, VT_UNPACK]},
     'bounded': {'parse_osc_dispatch_slices': 'default feature set only, payload <= 6 bytes'},
     'assumptions': ['arrayvec::ArrayVec (core feature) is represented by a stand-in with the documented contract of len/is_full/push/clear (push requires !is_full): ASSUMED, arrayvec itself is not verified',
                     'the same S2 model is the postcondition in every feature set, with the OSC capacity (None / 1024) as its only parameter; the CharAccumulator is abstract, so AsciiParser vs Utf8Parser cannot matter where it is never called (lemma_seven_bit_no_utf8)',
@@ -272,13 +278,13 @@ PROPS['C20'] = {
 PROPS['C18'] = {
     'level': 'model_checking',
     'functions': ['anstream::wincon::{write,write_all,cap_wincon_color} (cut verbatim from the working tree and compiled on this platform)'],
-    'quick': {'kani': [{'crate': 'anstream', 'harnesses': ['wincon_cap_color', 'wincon_write_all_plumbing', 'wincon_write_reports_progress'], 'timeout': 2400, 'mem_gb': 12, 'jobs': 3, 'flags': ['-Z', 'stubbing']}]},
-    'bounded': {'wincon_write_all_plumbing': 'the styled-run extractor replaced by a recording stand-in yielding 0-2 runs with arbitrary styles and 1-2 byte texts; every console script with at most two misbehaving calls (any prefix, zero, Interrupted, Other)',
-                'wincon_write_reports_progress': 'same stand-in, at most one misbehaving console call'},
+    'quick': {'kani': [{'crate': 'anstream', 'harnesses': ['wincon_cap_color', 'wincon_write_reports_progress'], 'timeout': 2400, 'mem_gb': 12, 'jobs': 3, 'flags': ['-Z', 'stubbing']}]},
+    'bounded': {'wincon_write_reports_progress': 'the styled-run extractor replaced by a recording stand-in yielding 0-2 runs with arbitrary fg/bg colours and 1-2 byte texts; at most one misbehaving console call (any prefix, zero, Interrupted, Other)'},
     'rule': 'one case = one harness over all extractor answers (<= 2 runs) x all console scripts (<= 2 faults); non-trivial = verified with covers reached',
     'assumptions': ['modular: which runs the extractor yields for a given input (visible text in order, no escape byte, style in effect) is C02 + C07; here write/write_all are verified to hand over exactly the runs they are given',
+                    'write_all (retry loop: each run handed over exactly once, Interrupted retried, WriteZero) is NOT verified: its harness (wincon_write_all_plumbing, kept in the source) does not finish in CBMC (> 30 min, 10 GB)',
                     'impl Write for WinconStream, write_fmt and write_vectored only compile on Windows and are not covered'],
-    'explanation': 'The platform-independent functions of the console stream are extracted verbatim and verified by Kani against an uninterpreted run extractor and a recording console whose every call may accept any prefix, nothing, or fail.',
+    'explanation': 'The platform-independent functions of the console stream are extracted verbatim; cap_wincon_color is verified completely, `write` against an uninterpreted run extractor and a recording console whose every call may accept any prefix, nothing, or fail.',
 }
 PROPS['C18']['thorough'] = PROPS['C18']['quick']
 
@@ -287,7 +293,7 @@ PROPS['C19'] = {
     'functions': ['impl Write for StripStream / AutoStream (write, write_vectored, flush, write_all, write_fmt): lock acquisitions per call',
                   'colorchoice::AtomicChoice::{new,get,set,from_choice,to_choice}'],
     'quick': {'kani': [
-        {'crate': 'anstream', 'harnesses': ['stream_methods_forward', 'auto_passthrough_forwards', 'auto_never_is_strip_stream', 'lock_write_fmt_once'], 'timeout': 1500, 'flags': ['-Z', 'stubbing'], 'mem_gb': 12},
+        {'crate': 'anstream', 'harnesses': ['stream_methods_forward', 'auto_pass_one_write', 'auto_pass_all_write', 'auto_pass_vectored_write', 'auto_pass_flushes', 'auto_routed_one_write', 'auto_routed_all_write', 'auto_routed_vectored_write', 'auto_routed_flushes', 'lock_write_fmt_once_pass', 'lock_write_fmt_once_strip'], 'timeout': 1500, 'flags': ['-Z', 'stubbing'], 'mem_gb': 12},
         {'crate': 'colorchoice', 'harnesses': ['choice_encoding_total'], 'timeout': 600}]},
     'explanation': 'REDUCED FORM, no schedule is explored: neither Verus (without its permission types) nor Kani models threads. What is verified is the sequential sufficient condition the code relies on: every Write method of StripStream and AutoStream acquires the inner lock exactly once and performs all inner writes through that guard (so one print!/write_all/write_fmt call is one critical section of StdoutLock), and the atomic colour choice is a total, injective encoding whose get cannot panic. That one critical section is not interleaved, and that AtomicUsize with SeqCst behaves as an atomic register, are std contracts: ASSUMED.',
     'assumptions': ['std::io::StdoutLock / StderrLock give mutual exclusion for the lifetime of the guard (std contract, assumed)',
